@@ -180,6 +180,23 @@ class AnnDataRowIterator(object):
         If sparse is True, return result as a CSR matrix.
         Otherwise, return as a dense array.
         """
+        if len(row_idx) == 0:
+            # no rows: an empty batch of the right width and type
+            return self._chunk_iterator.get_batch(
+                            [0],
+                            sparse=sparse)[:0, :]
+
+        # the iterators below need each row to be requested once
+        (unique_idx,
+         inverse) = np.unique(
+            np.array(row_idx, dtype=int),
+            return_inverse=True)
+        if len(unique_idx) < len(row_idx):
+            batch = self._chunk_iterator.get_batch(
+                            [int(r) for r in unique_idx],
+                            sparse=sparse)
+            return batch[inverse, :]
+
         return self._chunk_iterator.get_batch(
                         row_idx,
                         sparse=sparse)
